@@ -1180,6 +1180,30 @@ func auparseFamily(ctx *Ctx) error {
 				run(mkACase("data", t, "audit(1.000:1): "+e), true, true, "edge")
 			}
 		}
+		// the AVC message grammar, systematically: every sequence of up to 4 (thorough: 5) fragments of an
+		// SELinux AVC message, in and out of order, under AVC, USER_AVC and an unrelated type
+		{
+			frags := []string{"avc:  denied ", "{ read } for  ", "{ write", "} for ", "{", "}", " for  pid=1 ", "avc:", "x "}
+			maxLen := 4
+			if ctx.Thorough() {
+				maxLen = 5
+			}
+			var rec func(prefix string, depth int)
+			rec = func(prefix string, depth int) {
+				if depth > 0 {
+					for _, t := range []int{1400, 1107, 1300} {
+						run(mkACase("data", t, "audit(1.000:1): "+prefix), true, true, "avc-grammar")
+					}
+				}
+				if depth == maxLen || res.NumViolations() >= 5 {
+					return
+				}
+				for _, f := range frags {
+					rec(prefix+f, depth+1)
+				}
+			}
+			rec("", 0)
+		}
 		// fixed lines under every record type
 		step := 1
 		if !ctx.Thorough() {
